@@ -1,3 +1,240 @@
 package main
 
-func runSelfValidation(prop, repo, verif string, res *Result) {}
+// Checker self-validation (thorough tier, DESIGN.md 2.3): every scripted variant
+// of checker/mutants/<prop>/*.json is applied to a scratch copy of the repository
+// (outside /repo and /verif, removed at once) and analysed in a fresh subprocess.
+// A "break" variant must be reported by the named rule; a "refactor" variant must
+// stay silent. Results are evidence only; they never become a VIOLATION.
+
+import (
+	"encoding/json"
+	"fmt"
+	"io"
+	"io/fs"
+	"os"
+	"os/exec"
+	"path/filepath"
+	"sort"
+	"strings"
+	"sync"
+)
+
+type mutantEdit struct {
+	File    string `json:"file"`
+	Find    string `json:"find"`
+	Replace string `json:"replace"`
+	Count   int    `json:"count,omitempty"` // which occurrence (1-based); 0 = must be unique
+}
+
+type mutant struct {
+	Name   string       `json:"name"`
+	Kind   string       `json:"kind"` // break | refactor
+	Desc   string       `json:"desc"`
+	Expect string       `json:"expect_rule,omitempty"`
+	Edits  []mutantEdit `json:"edits"`
+}
+
+type mutantResult struct {
+	Name    string `json:"name"`
+	Kind    string `json:"kind"`
+	Outcome string `json:"outcome"` // detected | missed | silent | false-alarm | skipped
+	Detail  string `json:"detail,omitempty"`
+}
+
+func runSelfValidation(prop, repo, verif string, res *Result) {
+	dir := filepath.Join(verif, "checker", "mutants", prop)
+	files, _ := filepath.Glob(filepath.Join(dir, "*.json"))
+	sort.Strings(files)
+	if len(files) == 0 {
+		res.Extra["self_validation"] = "no scripted variants for this property"
+		return
+	}
+	self, err := os.Executable()
+	if err != nil {
+		res.Extra["self_validation"] = "cannot locate own binary: " + err.Error()
+		return
+	}
+	var muts []mutant
+	for _, f := range files {
+		b, err := os.ReadFile(f)
+		if err != nil {
+			continue
+		}
+		var ms []mutant
+		if err := json.Unmarshal(b, &ms); err != nil {
+			var m mutant
+			if err2 := json.Unmarshal(b, &m); err2 != nil {
+				res.Extra["self_validation_error"] = fmt.Sprintf("%s: %v", f, err)
+				continue
+			}
+			ms = []mutant{m}
+		}
+		muts = append(muts, ms...)
+	}
+	results := make([]mutantResult, len(muts))
+	sem := make(chan struct{}, 6)
+	var wg sync.WaitGroup
+	for i := range muts {
+		wg.Add(1)
+		go func(i int) {
+			defer wg.Done()
+			sem <- struct{}{}
+			defer func() { <-sem }()
+			results[i] = runMutant(self, prop, repo, verif, muts[i])
+		}(i)
+	}
+	wg.Wait()
+	det, miss, silent, fa, skipped := 0, 0, 0, 0, 0
+	for _, r := range results {
+		switch r.Outcome {
+		case "detected":
+			det++
+		case "missed":
+			miss++
+		case "silent":
+			silent++
+		case "false-alarm":
+			fa++
+		default:
+			skipped++
+		}
+	}
+	res.Extra["self_validation"] = results
+	res.Extra["mutants_detected"] = det
+	res.Extra["mutants_missed"] = miss
+	res.Extra["refactors_silent"] = silent
+	res.Extra["refactors_false_alarm"] = fa
+	res.Extra["variants_skipped"] = skipped
+	fmt.Printf("%s self-validation: %d break variant(s) detected, %d missed; %d refactor variant(s) silent, %d false alarm(s); %d skipped\n",
+		prop, det, miss, silent, fa, skipped)
+	for _, r := range results {
+		if r.Outcome == "missed" || r.Outcome == "false-alarm" {
+			fmt.Printf("%s self-validation: %s %s: %s\n", prop, r.Outcome, r.Name, r.Detail)
+		}
+	}
+}
+
+func runMutant(self, prop, repo, verif string, m mutant) mutantResult {
+	out := mutantResult{Name: m.Name, Kind: m.Kind}
+	tmp, err := os.MkdirTemp("", "ecalcheck-variant-")
+	if err != nil {
+		out.Outcome, out.Detail = "skipped", err.Error()
+		return out
+	}
+	defer os.RemoveAll(tmp)
+	if err := copyTree(repo, tmp); err != nil {
+		out.Outcome, out.Detail = "skipped", "copy: "+err.Error()
+		return out
+	}
+	for _, e := range m.Edits {
+		p := filepath.Join(tmp, e.File)
+		b, err := os.ReadFile(p)
+		if err != nil {
+			out.Outcome, out.Detail = "skipped", "file missing: "+e.File
+			return out
+		}
+		s := string(b)
+		n := strings.Count(s, e.Find)
+		if n == 0 || (e.Count == 0 && n != 1) || e.Count > n {
+			out.Outcome, out.Detail = "skipped", fmt.Sprintf("anchor text occurs %d time(s) in %s (tree was edited)", n, e.File)
+			return out
+		}
+		if e.Count == 0 {
+			s = strings.Replace(s, e.Find, e.Replace, 1)
+		} else {
+			idx := -1
+			from := 0
+			for k := 0; k < e.Count; k++ {
+				j := strings.Index(s[from:], e.Find)
+				idx = from + j
+				from = idx + len(e.Find)
+			}
+			s = s[:idx] + e.Replace + s[idx+len(e.Find):]
+		}
+		if err := os.WriteFile(p, []byte(s), 0o644); err != nil {
+			out.Outcome, out.Detail = "skipped", err.Error()
+			return out
+		}
+	}
+	cmd := exec.Command(self, "-prop", prop, "-tier", "quick", "-repo", tmp, "-verif", verif, "-no-evidence")
+	cmd.Env = append(os.Environ(), "ECALCHECK_CHILD=1")
+	b, _ := cmd.CombinedOutput()
+	text := string(b)
+	code := 0
+	if cmd.ProcessState != nil {
+		code = cmd.ProcessState.ExitCode()
+	}
+	violated := code != 0 || strings.Contains(text, "VIOLATION property=")
+	if strings.Contains(text, "does not type-check") {
+		out.Outcome, out.Detail = "skipped", "variant does not compile"
+		return out
+	}
+	switch m.Kind {
+	case "break":
+		if violated && (m.Expect == "" || strings.Contains(text, prop+" "+m.Expect)) {
+			out.Outcome = "detected"
+			out.Detail = firstLineWith(text, prop+" "+m.Expect)
+		} else if violated {
+			out.Outcome = "detected"
+			out.Detail = "by another rule: " + firstLineWith(text, prop+" R")
+		} else {
+			out.Outcome = "missed"
+			out.Detail = m.Desc
+		}
+	default:
+		if violated {
+			out.Outcome = "false-alarm"
+			out.Detail = firstLineWith(text, prop+" ")
+		} else {
+			out.Outcome = "silent"
+		}
+	}
+	return out
+}
+
+func firstLineWith(text, sub string) string {
+	for _, l := range strings.Split(text, "\n") {
+		if strings.Contains(l, sub) {
+			if len(l) > 260 {
+				l = l[:260] + "…"
+			}
+			return l
+		}
+	}
+	return ""
+}
+
+func copyTree(src, dst string) error {
+	return filepath.WalkDir(src, func(p string, d fs.DirEntry, err error) error {
+		if err != nil {
+			return err
+		}
+		rel, _ := filepath.Rel(src, p)
+		if rel == ".git" {
+			return filepath.SkipDir
+		}
+		t := filepath.Join(dst, rel)
+		if d.IsDir() {
+			return os.MkdirAll(t, 0o755)
+		}
+		if !d.Type().IsRegular() {
+			return nil
+		}
+		ext := filepath.Ext(p)
+		if ext != ".go" && ext != ".mod" && ext != ".sum" {
+			return nil
+		}
+		in, err := os.Open(p)
+		if err != nil {
+			return err
+		}
+		defer in.Close()
+		out, err := os.Create(t)
+		if err != nil {
+			return err
+		}
+		defer out.Close()
+		_, err = io.Copy(out, in)
+		return err
+	})
+}
